@@ -62,7 +62,7 @@ def id_table(shape):
     return out
 
 
-def dispatch_check(shape):
+def dispatch_check(shape, enabled=(0, 1, 2)):
     """For every enabled version e: a call by name must be encoded with the id of the newest
     implementation whose version is <= e; a name with no such implementation is not callable."""
     import pickle
@@ -81,7 +81,7 @@ def dispatch_check(shape):
     so._applyCommand = lambda cmd, cb, t=None: sent.append(cmd)
     owners = [so] + consumers
     n = 0
-    for e in (0, 1, 2):
+    for e in enabled:
         getattr(so, '_SyncObj__onSetCodeVersion')(e)
         for oi, meths in enumerate([objm] + list(cons)):
             for name, versions in sorted(meths.items()):
@@ -172,6 +172,37 @@ def programs_job(name, max_consumers):
     return res
 
 
+SPARSE = (0, 1, 2, 3, 5, 8, 9, 16, 17)
+
+
+def sparse_job(name, max_size):
+    """Version numbers are global to the code base, so one method usually has implementations at a few sparse
+    numbers: every version set of up to max_size numbers out of SPARSE for an object method (a second object
+    method and a consumer method with fixed sets next to it), every enabled version 0..18 in ascending order and
+    then back in descending order."""
+    t0 = time.time()
+    res = core.SearchResult(name)
+    enabled = tuple(range(0, 19)) + tuple(range(18, -1, -1))
+    n = 0
+    for r in range(1, max_size + 1):
+        for vs in itertools.combinations(SPARSE, r):
+            shape = ({'a': vs, 'b': (0, 1)}, [{'a': (0, 3, 17)}])
+            res.states += 1
+            nd, bad = dispatch_check(shape, enabled)
+            n += nd
+            if bad:
+                res.violations.append(dict(msg=bad, sig='wrong-implementation-for-version', trace=[repr(shape), 'dispatch-sparse']))
+                break
+        if res.violations:
+            break
+    res.transitions = n
+    res.outcomes = set([res.states])
+    res.samples = [[repr(shape), 'enabled versions %r' % (enabled,)]]
+    res.extra.update(dict(class_shapes=res.states, dispatch_cases=n))
+    res.wall_s = time.time() - t0
+    return res
+
+
 # ---- histories -----------------------------------------------------------------------
 
 VM = ('mc.monitors_c17', 'VersionMonitor', {})
@@ -189,6 +220,8 @@ def specs(tier):
         J('v-new3-journal-snap:S1H1P1', 'version_snap', dict(n=3, obj='vnew', journal='file+dump'), dict(S=1, H=1, P=1)),
         J('v-new2-hook:V1H2', 'steady', dict(n=2, obj='vnew', version_hook=True), dict(V=1, H=2), dict(k=0)),
         J('v-mixed2:V1S2H2', 'steady', dict(n=2, obj='vmixed'), dict(V=1, S=2, H=2), dict(k=0)),
+        # a node with old code stopped in front of the switch: its own compaction and restart in that state
+        J('v-stalled-old3:K1P1H1', 'stalled_old_code', dict(n=3, obj='vmixed', journal='file+dump'), dict(K=1, P=1, H=1)),
     ]
     if not q:
         js += [
@@ -205,6 +238,8 @@ def replay_programs(name, trace):
     import ast
     if trace[1] == 'dispatch':
         return dispatch_check(ast.literal_eval(trace[0]))[1]
+    if trace[1] == 'dispatch-sparse':
+        return dispatch_check(ast.literal_eval(trace[0]), tuple(range(0, 19)) + tuple(range(18, -1, -1)))[1]
     old_shape, new_shape = ast.literal_eval(trace[0]), ast.literal_eval(trace[1])
     old, new = id_table(old_shape), id_table(new_shape)
     if [t[:3] for t in new[:len(old)]] != [t[:3] for t in old]:
@@ -214,7 +249,8 @@ def replay_programs(name, trace):
 
 
 def main(tier, seed, job_filter=None):
-    pj = [(programs_job, dict(name='programs:consumers<=%d' % (1 if tier == 'quick' else 2), max_consumers=1 if tier == 'quick' else 2))]
+    pj = [(programs_job, dict(name='programs:consumers<=%d' % (1 if tier == 'quick' else 2), max_consumers=1 if tier == 'quick' else 2)),
+          (sparse_job, dict(name='programs:sparse-versions<=%d' % (3 if tier == 'quick' else 5), max_size=3 if tier == 'quick' else 5))]
     extra = []
     if not job_filter or 'programs' in job_filter:
         extra = core.run_jobs(pj)
